@@ -192,8 +192,13 @@ func (r *Runtime) SetRawMetatable(v Value, meta *Table) {
 		r.boolMeta = meta
 	case TableType:
 		tbl := v.AsTable()
+		hadGc := !RawGet(tbl.Metatable(), MetaFieldGcValue).IsNil()
 		tbl.SetMetatable(meta)
-		if !RawGet(meta, MetaFieldGcValue).IsNil() {
+		if hadGc || !RawGet(meta, MetaFieldGcValue).IsNil() {
+			// Also when the table loses its __gc: it may have been marked
+			// already and a finalizer pool may work on a copy of the table,
+			// which has to see the new metatable (the finalizer looked up is
+			// the one the table has when it is finalized).
 			r.addFinalizer(tbl, luagc.Finalize)
 		}
 	case UserDataType:
